@@ -1,9 +1,9 @@
 CONSTANTS
-  HeadVariants = {1, 2, 3, 4, 5}
+  HeadVariants = {1, 2, 3, 4, 5, 6, 7, 8}
   PixVariants = {1, 2, 3, 4, 5, 6, 7, 8, 9}
-  WithPreamble = {TRUE, FALSE}
+  WithPreamble = {FALSE}
   Files <- AllFiles
-  Stops <- AllStops
+  Stops <- QuickStops
   MaxUpTo = 2
 SPECIFICATION CSpec
 INVARIANTS WholeByElements WholeByFragments Progress
